@@ -14,7 +14,7 @@ from .. import sdepth, core, real, tickrec
 LEAN_MODULE = 'QbeeModel.Props.C10'
 REQUIRED = ['armed_dispatch', 'armed_dispatch_from_procedure', 'err_reports_kind', 'resume_reexecutes', 'resume_next_continues', 'on_error_resume_next_skips',
             'on_error_goto_0_restores', 'boundary_depth_formula', 'gosub_keeps_boundary', 'return_keeps_boundary', 'body_keeps_frames',
-            'failed_statement_leaves_nothing', 'failing_statements_do_not_accumulate', 'completed_statement_keeps_boundary', 'handler_starts_at_boundary', 'partial_results_stayed_before_repair']
+            'failed_statement_leaves_nothing', 'failing_statements_do_not_accumulate', 'completed_statement_keeps_boundary', 'handler_starts_at_boundary', 'partial_results_stayed_before_repair', 'lazy_refines_eager', 'lazy_handled_depth']
 
 FIXES = 'z% = 1 : k% = 1 : o% = 0 : c% = 65 : f$ = "##"'
 # (assignment that makes it fail, statement, ERR value, name, leaves partial results on the operand stack: every PRINT has
